@@ -1,16 +1,27 @@
 import Driver.D2Common
 import Lumina.Model.ShwapHasher
 import Lumina.Spec.C10
+import Lumina.Spec.C04
+import Lumina.Spec.C05
+import Lumina.Spec.C06
 
 open Lumina.Util Lumina.Model.Nmt Lumina.Model.Eds Lumina.Model.ShwapId Lumina.Model.Decoders
 open Lumina.Model.ShwapHasher Driver.D2Common
 
 namespace Driver.C10
 
-/-- stored headers: height `i + 1` ↦ `dahs[i]` -/
-abbrev St := List Dah
+/-- one stored header: its DAH and — known to the harness, which built the header from it — the square the DAH
+    commits to (width, row-major share bytes) -/
+structure Stored where
+  dah : Dah
+  w : Nat
+  sq : List Bytes
 
-def storeOf (st : St) (h : Nat) : Option Dah := if h = 0 then none else st[h - 1]?
+/-- stored headers: height `i + 1` ↦ `st[i]` -/
+abbrev St := List Stored
+
+def storeOf (st : St) (h : Nat) : Option Dah := if h = 0 then none else (st[h - 1]?).map Stored.dah
+def squareOf (st : St) (h : Nat) : Option Stored := if h = 0 then none else st[h - 1]?
 
 def intArg? (ws : List String) (key : String) : Option Int := (arg? ws key).bind String.toInt?
 
@@ -67,9 +78,9 @@ def step (st : St) (line : String) : St × String :=
   match ws with
   | "reset" :: _ => ([], "ok")
   | "header" :: _ =>
-    match parseDah ws with
-    | some d => (st ++ [d], s!"ok h={st.length + 1}")
-    | none => (st, "bad-op")
+    match parseDah ws, natArg? ws "w", hexListArg? ws "data" with
+    | some d, some w, some sq => (st ++ [⟨d, w, sq⟩], s!"ok h={st.length + 1}")
+    | _, _, _ => (st, "bad-op")
   | "hash" :: _ =>
     match natArg? ws "code", hexArg? ws "input" with
     | some code, some input => (st, showMh (multihash sha (paramsOf ws) (storeOf st) code input))
@@ -94,6 +105,44 @@ def parseObs (os : List String) : Option Lumina.Spec.C10.Obs :=
   | "panic" :: _ => some .panic
   | _ => none
 
+/-- INDEPENDENT soundness judgement of an accepted block (does not use the multihasher model nor the containers'
+    `verify`): the block's own CID names a height and a place; the harness knows the square it stored at that height;
+    the payload prost decoded from the container must be what a brute-force scan of that square finds at that place —
+    the scan-based specs of C04 (sample), C05 (row), C06 (row namespace data). -/
+def acceptedInSquare (st : St) (ws : List String) (code : Nat) : Bool :=
+  let P := paramsOf ws
+  match hexArg? ws "bcid", hexArg? ws "bcont" with
+  | some cidB, some cont =>
+    match Cid.read cidB with
+    | none => false
+    | some cid =>
+      if code = Lumina.Gen.C15.SAMPLE_ID_MULTIHASH_CODE then
+        match SampleId.ofCid cid, P.decodeSample cont with
+        | .ok id, some raw =>
+          match squareOf st id.row.eds.height, raw.share with
+          | some s, some share => Lumina.Spec.C04.specVerify s.w s.sq id.row.index id.column share true
+          | _, _ => false
+        | _, _ => false
+      else if code = Lumina.Gen.C15.ROW_ID_MULTIHASH_CODE then
+        match RowId.ofCid cid with
+        | .ok id =>
+          match squareOf st id.eds.height, hexListArg? ws "ext" with
+          | some s, some full =>
+            -- the row the codec completed from the half on the wire must be row `index` of the stored square
+            Lumina.Spec.C05.specVerify
+              (if id.index < s.w then some ((List.range s.w).map (fun c => s.sq.getD (id.index * s.w + c) [])) else none)
+              full true
+          | _, _ => false
+        | _ => false
+      else
+        match RowNamespaceDataId.ofCid cid, P.decodeRnd cont with
+        | .ok id, some raw =>
+          match squareOf st id.row.eds.height with
+          | some s => Lumina.Spec.C06.specRow s.w s.sq id.ns id.row.index raw.shares true
+          | none => false
+        | _, _ => false
+  | _, _ => false
+
 def spec (st : St) (op : String) (obs : String) : String :=
   let ws := words op
   let os := words obs
@@ -102,6 +151,8 @@ def spec (st : St) (op : String) (obs : String) : String :=
     match natArg? ws "code", hexArg? ws "input", parseObs os with
     | some code, some input, some o =>
       if o == .panic then "specfail C10/hash-panic the multihasher panicked instead of reporting an error"
+      else if (match o with | .hash _ => !acceptedInSquare st ws code | _ => false) then
+        "specfail C10/accepted-block-not-in-square a hash was yielded for a block whose payload is not what the stored square holds at the place its CID names (scan specs of C04/C05/C06)"
       else if Lumina.Spec.C10.specHash (knownCode code) (allowed sha (paramsOf ws) (storeOf st) code input) o then "specok"
       else
         match o with
